@@ -52,6 +52,9 @@ func mergeProfile(r *rand.Rand) (gen.Profile, gen.DataCfg) {
 	if r.Intn(3) == 0 {
 		p.ValueWithID = 0.6
 	}
+	if r.Intn(3) == 0 {
+		p.IfaceImplNode = 0.7
+	}
 	return p, gen.DataCfg{Seed: 1, ListMax: 2, Pool: 3}
 }
 
@@ -83,7 +86,14 @@ type mergeOutcome struct {
 	urls  []string
 }
 
-func svcURL(i int) string { return fmt.Sprintf("http://svc%d.test/graphql", i) }
+// svcURL is the url service i is configured with; every other one ends with a slash (an endpoint mounted at /graphql/):
+// the url is the service's identity in the routing table, spelled as configured.
+func svcURL(i int) string {
+	if i%2 == 1 {
+		return fmt.Sprintf("http://svc%d.test/graphql/", i)
+	}
+	return fmt.Sprintf("http://svc%d.test/graphql", i)
+}
 
 func doMerge(svcs []rig.ServiceSpec, perm []int, sanitize bool) (out mergeOutcome) {
 	parsed := make([]*ast.Schema, len(svcs))
